@@ -323,7 +323,9 @@ let monitors (lineno : int) (c : case) (x : run) (roots : string list) : unit =
           if not (List.exists (fun sr -> List.nth sr i = r) c.seqreps) then
             let purged = List.exists (function (u0 :: _) -> u0 = int_of_n u | _ -> false) c.st0.users
                          && not (List.exists (function (u0 :: _) -> u0 = int_of_n u | _ -> false) x.st.users) in
+            let same_user_add = List.exists (function [{ op = OAdd (Some u', _, _, _, _); _ }] -> u' = u | _ -> false) c.threads in
             mon lineno c "reply" (match r with "SO" :: _ when purged -> "getsub:locators-read-after-its-owner-was-purged"
+                                             | "SO" :: _ when same_user_add -> "getsub:charged-before-the-appointment-is-stored"
                                              | _ -> "getsub:reply-of-no-sequential-order")
               (Printf.sprintf "thread=%d,reply=[%s],sequential=[%s]" i (String.concat " " r)
                  (String.concat " || " (List.map (fun sr -> String.concat " " (List.nth sr i)) c.seqreps))) w
